@@ -74,6 +74,35 @@ func c14(c *Ctx) {
 			}
 		}
 		c.Expect(ncl == 1, nil, f, "one-close-of-goaway-channel", "expected exactly one close of the GOAWAY channel")
+		// "have I seen a GOAWAY before?" is decided on the GOAWAY channel itself (closed = yes), not on the draining state,
+		// which the client also enters on its own (GracefulClose) without any GOAWAY: the channel is closed on the arm
+		// where the non-blocking receive from it did not fire, and the "id exceeds the previous GOAWAY's" connection error
+		// is raised only on the arm where it fired
+		var sel *ssa.Select
+		for _, in := range instrsWhere(f, func(in ssa.Instruction) bool {
+			s, ok := in.(*ssa.Select)
+			return ok && !s.Blocking && len(s.States) == 1 && FieldLoad(fGA)(s.States[0].Chan)
+		}) {
+			sel = in.(*ssa.Select)
+		}
+		if c.Expect(sel != nil, nil, f, "seen-before-test-on-the-goaway-channel", "the handler does not test the GOAWAY channel (non-blocking receive) to tell a first GOAWAY from a later one") {
+			idx := ExtractOf(func(v ssa.Value) bool { return v == ssa.Value(sel) }, 0)
+			for _, fn := range c.scope(tr) {
+				for _, m := range mutationsOf(fn, fGA) {
+					if m.Kind == "close" && fn == f {
+						c.MustFact(m.Instr, "closed-only-when-not-yet-closed", CmpInt(idx, token.NEQ, 0))
+					}
+				}
+			}
+			for _, r := range returnsOf(f) {
+				if r.Block() == f.Recover || ConstNil(strip(r.Results[0])) {
+					continue
+				}
+				if c.HasFact(r, Cmp(FieldLoad(c.field(h2, "GoAwayFrame", "LastStreamID")), token.GTR, FieldLoad(cl("prevGoAwayID")))) {
+					c.MustFact(r, "exceeds-previous-only-after-a-previous-goaway", CmpInt(idx, token.EQL, 0))
+				}
+			}
+		}
 		draining := ConstOfObj(c.konst(tr, "draining"))
 		nd := 0
 		for _, st := range storesToField(f, cl("state")) {
